@@ -59,6 +59,10 @@ def cases(tier, seed):
             # undeduplicated histories, split by first letter to spread over workers
             for first in ALPHABET:
                 out.append(dict(fam="hist", mesh=m, pinned=p, first=first, depth=depth, seed=seed))
+    # two operator objects alive on one mesh, events interleaved between them
+    for m in meshes[:3] if tier == "quick" else meshes:
+        for p1, p2 in itertools.permutations(PINNED, 2):
+            out.append(dict(fam="pair", mesh=m, pinned=[p1, p2], seed=seed))
     L = 5 if tier == "quick" else 6
     Ls = 3 if tier == "quick" else 4
     devs = ["tiny"] if tier == "quick" else ["tiny", "G1"]
@@ -136,7 +140,8 @@ def fresh_ops(mesh, pinned_kind, term):
         interior = np.setdiff1d(np.arange(len(mesh.sites)), mesh.boundary_indices)
         fixed, fix = interior[:1].astype(np.int64), True
     ops = MeshOperators(mesh, SparseSolver.SUPERLU, fixed_sites=fixed, fix_psi=fix)
-    ops.build_operators()
+    # build_operators() (the potential-independent operators and the LU factorisation) is not needed by the refresh path;
+    # it is exercised by the solver family
     return ops
 
 
@@ -365,5 +370,40 @@ def run_solver(case):
     return res
 
 
+def run_pair(case):
+    """interleavings of refresh events on two MeshOperators objects that share one Mesh"""
+    res = CaseResult()
+    res.key = case_key(case)
+    mesh, term = get_mesh(case["mesh"])
+    pots = potentials(mesh, case["seed"])
+    letters = ["uni", "lin", "rnd"]
+    refs = {}
+    for pk in case["pinned"]:
+        for a in letters:
+            r = fresh_ops(mesh, pk, term)
+            r.set_link_exponents(pots[a])
+            refs[(pk, a)] = r
+    # all interleaved event sequences of length 4 over (object, potential)
+    events = [(o, a) for o in (0, 1) for a in letters]
+    for seq in itertools.product(events, repeat=3):
+        if len({o for o, _ in seq}) < 2:
+            continue
+        objs = [fresh_ops(mesh, case["pinned"][0], term), fresh_ops(mesh, case["pinned"][1], term)]
+        last = [None, None]
+        for o, a in seq:
+            objs[o].set_link_exponents(pots[a])
+            last[o] = a
+            res.transitions += 1
+            for q in (0, 1):
+                if last[q] is not None:
+                    compare(objs[q], refs[(case["pinned"][q], last[q])], res,
+                            dict(mesh=case["mesh"], pinned=f"{case['pinned'][q]}|other={case['pinned'][1 - q]}", history=[list(e) for e in seq]))
+        res.states.add(f"{case['mesh']}/{case['pinned']}/{seq}")
+    res.executions = res.transitions
+    res.nontrivial = True
+    res.outcome = "pair"
+    return res
+
+
 def run_case(case):
-    return {"bfs": run_bfs, "hist": run_hist, "solver": run_solver}[case["fam"]](case)
+    return {"bfs": run_bfs, "hist": run_hist, "solver": run_solver, "pair": run_pair}[case["fam"]](case)
